@@ -8,7 +8,7 @@ git -C /repo worktree add -q $wt HEAD || exit 2
 pkg=$(grep -m1 '^package ' $d/demo_test.go | awk '{print $2}')
 case $pkg in
   strategy) dir=strategy;; cpumem) dir=resource/plugins/cpumem;; schedule) dir=resource/plugins/cpumem/schedule;;
-  cobalt) dir=resource/cobalt;; calcium) dir=cluster/calcium;; utils) dir=utils;; types) dir=types;; wal) dir=wal;; docker) dir=engine/docker;; interceptor) dir=client/interceptor;; simple) dir=auth/simple;; meta) dir=store/etcdv3/meta;; helium) dir=discovery/helium;; selfmon) dir=selfmon;; rpc) dir=rpc;; *) dir=$pkg;;
+  cobalt) dir=resource/cobalt;; calcium) dir=cluster/calcium;; utils) dir=utils;; types) dir=types;; wal) dir=wal;; docker) dir=engine/docker;; interceptor) dir=client/interceptor;; simple) dir=auth/simple;; meta) dir=store/etcdv3/meta;; etcdv3) dir=store/etcdv3;; helium) dir=discovery/helium;; selfmon) dir=selfmon;; rpc) dir=rpc;; *) dir=$pkg;;
 esac
 tests=$(grep -o '^func Test[A-Za-z0-9_]*' $d/demo_test.go | sed 's/func //' | paste -sd'|')
 cp $d/demo_test.go $wt/$dir/zz_demo_test.go
